@@ -48,8 +48,24 @@ type FuncContract struct {
 	// only the quantified specification facts named here (and those carrying the goal's own name); hiding facts is sound.
 	Focus map[string][]string
 	PreCalls []PreCall
+	// Ghosts name values that exist only inside the function (an argument or result of a call it makes) so that the
+	// postcondition can speak about them; a caller sees them as existentially quantified (fresh constants).
+	Ghosts []GhostDef
+	// PostUses are lemma applications evaluated in the post-state (they may name results and ghosts); they are assumed
+	// before the postconditions are checked and, together with the postconditions, at every call site in contract mode.
+	PostUses     []string
+	PostUseExprs []ast.Expr
 	File     string
 	Line     int
+}
+
+// GhostDef: "ghost <name>: <callee> argK" or "ghost <name>: <callee> resultK" - the callee must be called exactly once
+// (statically) in the function.
+type GhostDef struct {
+	Name, Callee string
+	Arg, Res     int // one of them is >= 0, unless GhostOf is set
+	GhostOf      string // "ghost x: callee ghost.y": the ghost y of the (last) contract-mode call of callee
+	Line         int
 }
 
 // PreCall is an assertion checked immediately before the n-th call (source order) of a callee inside a function.
@@ -473,6 +489,35 @@ func (db *ContractDB) parseFile(pkg, file, text string) {
 					cur.Focus = map[string][]string{}
 				}
 				cur.Focus[label] = append(cur.Focus[label], strings.Fields(strings.ReplaceAll(src, ",", " "))...)
+			}
+		case "ghost":
+			label, src := splitLabel(rest)
+			gf := strings.Fields(src)
+			if cur == nil || label == "" || len(gf) != 2 {
+				errf(l.line, "bad ghost clause (ghost name: callee argK|resultK)")
+				continue
+			}
+			g := GhostDef{Name: label, Callee: gf[0], Arg: -1, Res: -1, Line: l.line}
+			if strings.HasPrefix(gf[1], "ghost.") {
+				g.GhostOf = gf[1][6:]
+			} else if strings.HasPrefix(gf[1], "arg") {
+				g.Arg, _ = strconv.Atoi(gf[1][3:])
+			} else if strings.HasPrefix(gf[1], "result") {
+				g.Res, _ = strconv.Atoi(gf[1][6:])
+			} else {
+				errf(l.line, "bad ghost clause (ghost name: callee argK|resultK)")
+				continue
+			}
+			cur.Ghosts = append(cur.Ghosts, g)
+		case "postuse":
+			if cur != nil {
+				e, err := parser.ParseExpr(rest)
+				if err != nil {
+					errf(l.line, "parse postuse %q: %v", rest, err)
+					continue
+				}
+				cur.PostUses = append(cur.PostUses, rest)
+				cur.PostUseExprs = append(cur.PostUseExprs, e)
 			}
 		case "use":
 			if cur != nil {
